@@ -78,6 +78,21 @@ theorem checker_sound (f : Fn) (ann : Ann) (hv : verify f ann = true)
     obtain ⟨h1, h2, _, h4⟩ := inv_at_end f ann hV D S A c hinv hend
     exact ⟨h1, h2, h4⟩
 
+/-- For C09 (tail calls run in constant space): every time a verified function is back at its
+first instruction — which is where a self tail call jumps — the data stack holds exactly the
+arguments on top of the caller's part and no scope of the function is open. So the n-th
+iteration of a tail-recursive function starts at the stack depths of the first. -/
+theorem tail_call_reenters_at_entry_depth (f : Fn) (ann : Ann) (hv : verify f ann = true)
+    (D : List Cell) (S A : Nat) (c0 c : CState)
+    (hpc : c0.pc = 0) (hdata : c0.data = List.replicate f.entryCount .val ++ D)
+    (hsc : c0.sc = S) (haddr : c0.addr = A) (hreach : Reach f c0 c) (hc : c.pc = 0) :
+    c.data = List.replicate f.entryCount .val ++ D ∧ c.sc = S ∧ c.addr = A := by
+  have hV := verified_of_verify f ann hv
+  have h0 := inv_entry f ann hV D S A c0 hpc hdata hsc haddr
+  have hinv := inv_reach f ann hV D S A c0 c hreach h0
+  obtain ⟨h1, h2⟩ := inv_at_pc0 f ann hV D S A c hinv hc
+  exact ⟨h1, h2, (inv_frame ann D S A c hinv).2.2⟩
+
 /-- The same for the executable checker `check` (inference + verification). -/
 theorem check_sound (f : Fn) (h : check f = .ok ())
     (D : List Cell) (S A : Nat) (c0 c : CState)
